@@ -294,9 +294,24 @@ def stepOp (t : T) (toks : List String) : String :=
           | none => panicS
       let model := match modelSrc t src with
         | none => panicS
-        | some v => showOutcome toString (if isTensor src then t.first else v.scalar)
+        | some v =>
+          showOutcome toString
+            (if isTensor src then t.first
+             else if optArg "form" rest == some "into" then v.intoScalar else v.scalar)
       both spec model
     | none => "bad-op"
+  | "source" :: rest =>
+    -- building a view over the tensor and taking the source back out gives the tensor back
+    match srcArg "src" rest with
+    | some src =>
+      match specSrc t src, modelSrc t src with
+      | some _, some _ => showT t
+      | none, none => panicS
+      | _, _ => "MODEL-SPEC-DISAGREE source"
+    | none => "bad-op"
+  | "is_square" :: _ =>
+    let lens := t.shape.map (·.2)
+    both (toString (decide (∀ a ∈ lens, ∀ b ∈ lens, a = b))) (toString (isSquare t.shape))
   | "into_matrix" :: _ =>
     let spec := match t.shape with
       | [r, c] => s!"rows={r.2} cols={c.2} data={showNats t.data}"
